@@ -33,7 +33,7 @@ var (
 // package switching (which only makes the rest of the program unbound)
 var sweepSkip = map[string]bool{
 	"lisp:load-file": true, "time:sleep": true, "time:utc-now": true, "time:time-elapsed": true,
-	"user:host-panic": true, "user:host-see": true, "user:host-cond": true, "user:gset": true, "user:probe": true,
+	"user:host-panic": true, "user:host-panic-handler": true, "user:host-see": true, "user:host-cond": true, "user:gset": true, "user:probe": true,
 	"lisp:in-package": true,
 }
 
